@@ -73,3 +73,29 @@ claim("C11",
       "the automaton is the specification; FIFO delivery is C05; the execution-level result record is covered by C18/C16; user code deterministic",
       "CrossHair symbolic execution (z3) of all real operation executors against a lifecycle automaton oracle",
       "DESIGN.md §3 C11")
+claim("C05",
+      "Bounded symbolic model checking of the REAL pipeline code (create_checkpoint, checkpoint_batches_forever, _collect_checkpoint_batch, CompletionEvent) "
+      "lowered to coroutines and interleaved by a scheduler whose choices are solver variables: 3 producers (4 thorough) with symbolic sizes vs symbolic "
+      "byte/count limits, sync/async/empty-checkpoint patterns, batching window on/off, solver-chosen successor at blocking points, one solver-chosen "
+      "preemption at any shared-state operation, and a failing API call: delivered sequence == hand-over sequence, token chain, limits, every sync "
+      "caller released (success after apply, or the failure). All paths exhausted per lemma.",
+      "queue/Event/Lock/clock/service client are stubs (evidence assumptions); preemption granularity = operations on shared state; context bound K=1 (quick); "
+      "producers beyond 3-4, K>=2 and real OS scheduling are outside the claim",
+      "CrossHair symbolic execution (z3) of coroutine-lowered real batcher code under a solver-driven context-bounded scheduler",
+      "DESIGN.md §2.3, §3 C05")
+claim("C06",
+      "Same world as C05 with a failing API call at a solver-chosen position: every sync caller in batch / overflow / main queue is released with the "
+      "failure (never with success unless applied, never blocked), failure flag set, no further API call, later callers (sync and async) fail at once; "
+      "one solver-chosen preemption anywhere in producer or consumer (check-then-put window, drain loop, event set before error stored). "
+      "Executor/wrapper-level fail-stop lemmas are added in the executor world (see evidence).",
+      "as C05; error classification is C18",
+      "CrossHair symbolic execution (z3) of coroutine-lowered real batcher code under a solver-driven scheduler with fault injection",
+      "DESIGN.md §3 C06")
+claim("C03",
+      "W1: in the pipeline world a synchronous create_checkpoint returns (and its waiter is woken without error) only after the API call carrying its update "
+      "returned and every page of the response was merged into state.operations - for every batch boundary, inline/paginated response, failing call 1/2/none "
+      "and one solver-chosen preemption. W2: for every handler kind and every reachable record, process() leaves by return/final error/suspension only when "
+      "the justifying record (terminal, START of wait/invoke/callback, RETRY) was handed over synchronously in this run or pre-existed.",
+      "as C05 for W1; FakeState + backend contract for W2; wrapper-level W3 (oversized final result) is decided under C16/C18",
+      "CrossHair symbolic execution (z3): coroutine-lowered real batcher under a solver-driven scheduler + real operation executors over arbitrary records",
+      "DESIGN.md §3 C03")
